@@ -349,3 +349,10 @@ pub fn can_dynarec(addr: usize) -> bool {
   addr < 0x8000
 }
 
+#[cfg(gb_dynarec_verif)]
+impl DMAState {
+  /// verification hook: (source, current_offset) of an active OAM DMA
+  pub fn verif_state(&self) -> (usize, u8) {
+    (self.source, self.current_offset)
+  }
+}
